@@ -1,12 +1,14 @@
 import VrlModel.Driver.C18
 import VrlModel.Driver.Lang
 import VrlModel.Driver.Arith
+import VrlModel.Driver.Search
 
 /-- Line protocol driver: one case per line `op <tab> arg…`, one reply line per case. -/
 def handlers : List (String → List String → Option String) := [
   Driver.C18.handle,
   Driver.LangRun.handle,
-  Driver.ArithOps.handle
+  Driver.ArithOps.handle,
+  Driver.SearchOps.handle
 ]
 
 def dispatch (op : String) (args : List String) : String :=
